@@ -52,12 +52,16 @@ var histSeeds = map[string]func(w *world) *world{
 		saved := worldFuel
 		worldFuel = 4000000
 		defer func() { worldFuel = saved }()
+		// (the statements that build the seed run without the scheduler; their statement windows are watched all the same)
+		w.window = storage.VerifNewWindow()
+		defer func() { w.window.Remove(); w.window = nil }()
 		ok := w.do(mkCreate("t1", worldSchemas["t1"])) && w.do(mkInsert(w.model, "t1", 8, false)) && w.do(mkCreate("t2", worldSchemas["t2"]))
 		for i := 0; ok && i < 340; i++ {
 			ok = w.do(mkInsert(w.model, "t2", 8, true))
 			if ok && i%40 == 39 {
 				ok = w.tick()
 			}
+			ok = ok && !w.c.Failed()
 		}
 		return okw(w, ok)
 	},
